@@ -396,15 +396,19 @@ class Matcher:
         raise OutsideDomain(dt)
 
 
-def import_component(S, imported, name, packages):
+def import_component(S, imported, name, packages, package_imports=None):
     """Effect of '%import name' on the schema model of THIS load.  packages maps an
     importable package name to the tuple of types its component defines, or to
-    None for names that are not packages providing a component."""
+    None for names that are not packages providing a component; package_imports maps
+    a package to the packages its component imports (read before its own types; a
+    component is read at most once per load, so cycles are harmless)."""
     if packages is None or packages.get(name) is None:
         raise _Reject("import-refused-not-a-component-package")
     if name in imported:
         return S                      # idempotent within a load
     imported.add(name)
+    for sub in (package_imports or {}).get(name, ()):
+        S = import_component(S, imported, sub, packages, package_imports)
     tt = M.type_table(S)
     new = []
     for t in packages[name]:
@@ -420,7 +424,7 @@ def import_component(S, imported, name, packages):
     return replace(S, types=tuple(S.types) + tuple(new))
 
 
-def decide(S, events, want_state=False, packages=None, preimported=()):
+def decide(S, events, want_state=False, packages=None, preimported=(), package_imports=None):
     """Run the reference model over a complete text given as an event list.
     `preimported`: packages the schema itself imports (their types are already in S)."""
     d = Decision()
@@ -447,7 +451,7 @@ def decide(S, events, want_state=False, packages=None, preimported=()):
                     raise OutsideDomain("closer with nothing open")
                 _close(m, stack, slots)
             elif ev[0] == "i":
-                S = import_component(S, imported, ev[1], packages)
+                S = import_component(S, imported, ev[1], packages, package_imports)
                 m.S = S
                 m.tt = M.type_table(S)
                 for c in stack:
